@@ -365,12 +365,12 @@ fn val_size(v: &Val) -> usize {
 pub fn gen_c15(cx: &mut Ctx) {
     let programs = cx.scale * if cx.thorough { 3000 } else { 250 };
     let steps = if cx.thorough { 50 } else { 25 };
-    let universe = if cx.thorough { names(&["a", "b", "c", "d", "e", "zz"]) } else { names(&["a", "b", "c", "zz"]) };
+    let universe = if cx.thorough { names(&["a", "b", "c", "d", "e", "zz"]) } else { names(&["a", "b", "c", "d", "zz"]) };
     for _ in 0..programs {
         let mut pool: Vec<Val> = vec![];
         // constructors
         for kind in 0..3 {
-            let ns = random_subset(&mut cx.rng, &universe[..universe.len() - 1], 3);
+            let ns = random_subset(&mut cx.rng, &universe[..universe.len() - 1], 4);
             let bits = random_bits(&mut cx.rng, ns.len());
             pool.push(fn_as(kind, &ns, &bits));
         }
@@ -458,6 +458,14 @@ pub fn gen_c15(cx: &mut Ctx) {
             cx.emit("C15", &op, &args, nt);
             if let Some(r) = apply(&op, &args) {
                 if val_size(&r) <= 2000 {
+                    // every semantic observation on the derived object must be that of a fresh object of
+                    // the same function: the driver computes them from the function the wire carries
+                    if cx.rng.below(3) == 0 && val_size(&r) <= 300 {
+                        for obs in ["inputs", "essential", "degree", "essdegree", "enum"] {
+                            cx.emit("C15", obs, &[Arg::F(r.clone())], true);
+                        }
+                        cx.emit("C15", "equiv", &[Arg::F(r.clone()), Arg::F(r.clone())], true);
+                    }
                     pool.push(r);
                 }
             }
@@ -791,6 +799,17 @@ pub fn gen_c20(cx: &mut Ctx) {
             calls.push((s("essential"), vec![Arg::F(Val::E(tree.clone()))]));
         }
         calls.push((s("implied"), vec![Arg::F(x.clone()), Arg::F(y.clone())]));
+        // enumerations that are consumed only partly leave whatever they cache behind them
+        if kind == 1 {
+            for _ in 0..3 {
+                calls.push((s("row"), vec![Arg::F(if rng.coin() { x.clone() } else { y.clone() }), Arg::A(rng.below(5).to_string())]));
+            }
+        }
+        calls.push((s("satpoint"), vec![Arg::F(x.clone())]));
+        calls.push((s("satpoint"), vec![Arg::F(y.clone())]));
+        calls.push((s("dom.first"), vec![Arg::F(x.clone()), Arg::A((1 + rng.below(3)).to_string())]));
+        calls.push((s("rel.nth"), vec![Arg::F(y.clone()), Arg::A(rng.below(4).to_string())]));
+        calls.push((s("rel.nth"), vec![Arg::F(x.clone()), Arg::A(rng.below(5).to_string())]));
         // error values are results too: several repeated header names, several missing inputs,
         // several faults in one text
         if round % 3 == 0 {
@@ -851,12 +870,15 @@ pub fn gen_c20(cx: &mut Ctx) {
     let mut results: Vec<(usize, String)> = vec![];
     for i in idx {
         let (op, args) = &calls[i];
-        let before: Vec<String> = args.iter().map(observe).collect();
+        // every other call runs bare, directly after whatever the shuffled order put before it: observing
+        // the operands first would bring any hidden per-thread state into the same condition every time
+        let watched = i % 2 == 0;
+        let before: Vec<String> = if watched { args.iter().map(observe).collect() } else { vec![] };
         let r1 = crate::ops::run(op, args);
-        let r1d = format!("{}|{}", r1, debug_of(op, args));
+        let r1d = if watched { format!("{}|{}", r1, debug_of(op, args)) } else { r1.clone() };
         let r2 = crate::ops::run(op, args);
-        let r2d = format!("{}|{}", r2, debug_of(op, args));
-        let after: Vec<String> = args.iter().map(observe).collect();
+        let r2d = if watched { format!("{}|{}", r2, debug_of(op, args)) } else { r2.clone() };
+        let after: Vec<String> = if watched { args.iter().map(observe).collect() } else { vec![] };
         let pure = before == after && r1d == r2d;
         results.push((i, format!("{} {}", fnv(&r1d), enc_bool(pure))));
     }
